@@ -2185,8 +2185,12 @@ impl<'a> Parser<'a> {
 
 // https://spec.graphql.org/June2018/#sec-String-Value
 fn clean_block_string_literal(source: &str) -> String {
-    let inner = &source[3..source.len() - 3];
-    let common_indent = get_common_indent(inner);
+    // `\"""` stands for `"""`, and LF, CRLF and a lone CR all terminate a line.
+    let inner = source[3..source.len() - 3]
+        .replace("\\\"\"\"", "\"\"\"")
+        .replace("\r\n", "\n")
+        .replace('\r', "\n");
+    let common_indent = get_common_indent(&inner);
 
     let mut formatted_lines = inner
         .lines()
